@@ -2,10 +2,12 @@ package props
 
 import (
 	"bytes"
+	"context"
 	"encoding/binary"
 	"encoding/json"
 	"fmt"
 	"github.com/jhalter/mobius/verifh/vrt"
+	"github.com/jhalter/mobius/verifh/vrt/vnet"
 	"os"
 	"path/filepath"
 	"strings"
@@ -43,6 +45,8 @@ type c08Case struct {
 	Preview bool   `json:"preview"`
 	OwnRoot bool   `json:"ownroot"`           // the account has its own file root; the server-wide root holds a different file of the same name
 	Collide bool   `json:"collide,omitempty"` // another download is granted afterwards and the server's random draw for its reference number is the same
+	Peek    bool   `json:"peek,omitempty"`    // another user asks for the downloader's client info (which lists its transfers) between grant and transfer
+	Overlap bool   `json:"overlap,omitempty"` // through the real accept loop of the transfer port, overlapping with an earlier, shorter transfer that ends first
 	Partial bool   `json:"partial"`           // only a partial upload of the name exists (it is listed under the final name): refused, or served as what it is
 }
 
@@ -135,6 +139,15 @@ func c08Run(w *explore.Worker, c c08Case) {
 			u.Req(ref.TDownloadFile, ref.FS(ref.FFileName, "other.bin"))
 			world.Quiet()
 		}
+		if c.Peek {
+			if adm, ar := wd.Connect("10.0.0.9:1009", "u", "pw", "adm"); ar != nil && ar.Err == 0 {
+				id := adm.Req(ref.TGetClientInfoText, ref.F16(ref.FUserID, 1))
+				world.Quiet()
+				if adm.Reply(id) == nil {
+					fail("client-info-about-the-downloader-not-answered", "")
+				}
+			}
+		}
 		xs, _ := rep.Get(ref.FTransferSize)
 		fsz, _ := rep.Get(ref.FFileSize)
 		if len(refnum) != 4 || len(xs) != 4 || len(fsz) != 4 {
@@ -142,9 +155,39 @@ func c08Run(w *explore.Worker, c c08Case) {
 			return
 		}
 		xferSize, fileSize := int(binary.BigEndian.Uint32(xs)), int(binary.BigEndian.Uint32(fsz))
-		conn := wd.DialTransfer("10.0.0.1:2001")
-		conn.Feed(ref.Preamble(refnum, 0))
-		world.Settle(10 * time.Second)
+		var conn *vnet.Conn
+		if c.Overlap {
+			// both transfers arrive through ServeFileTransfers; the first ends (and its handler returns, a few seconds
+			// later) while the second, whose client reads slowly, is still being sent
+			ln := &vnet.Listener{}
+			ctx, cancel := context.WithCancel(context.Background())
+			defer cancel()
+			defer ln.Close()
+			vrt.GoNamed("serve-transfers", func() { _ = wd.Srv.ServeFileTransfers(ctx, ln) })
+			oid := u.Req(ref.TDownloadFile, ref.FS(ref.FFileName, "other.bin"))
+			world.Quiet()
+			orep := u.Reply(oid)
+			if orep == nil || orep.Err != 0 {
+				fail("granted-download-refused", "other.bin")
+				return
+			}
+			oref, _ := orep.Get(ref.FRefNum)
+			first := vnet.NewConn("xa", "10.0.0.1:2001")
+			first.Feed(ref.Preamble(oref, 0))
+			ln.Dial(first)
+			world.Settle(1 * time.Second)
+			conn = vnet.NewConn("xb", "10.0.0.1:2002")
+			conn.Stalled = true
+			conn.Feed(ref.Preamble(refnum, 0))
+			ln.Dial(conn)
+			world.Settle(20 * time.Second)
+			conn.Stalled = false
+			world.Settle(20 * time.Second)
+		} else {
+			conn = wd.DialTransfer("10.0.0.1:2001")
+			conn.Feed(ref.Preamble(refnum, 0))
+			world.Settle(10 * time.Second)
+		}
 		stream := conn.All()
 		want := data[k:]
 		obs := ""
@@ -264,6 +307,8 @@ func c08Cases(thorough bool) []c08Case {
 		for _, k := range []int{-1, 0, 1} {
 			cs = append(cs, c08Case{Size: sz, Name: []byte("f.txt"), Disk: "f.txt", Forks: "none", Offset: k, Partial: true})
 			cs = append(cs, c08Case{Size: sz, Name: []byte("f.txt"), Disk: "f.txt", Forks: "none", Offset: k, Collide: true})
+			cs = append(cs, c08Case{Size: sz, Name: []byte("f.txt"), Disk: "f.txt", Forks: "none", Offset: k, Peek: true})
+			cs = append(cs, c08Case{Size: sz, Name: []byte("f.txt"), Disk: "f.txt", Forks: "none", Offset: k, Overlap: true})
 		}
 	}
 	for _, sz := range []int{0, 8, 513} {
